@@ -9,11 +9,21 @@ use crate::{HeapSize, LruCache};
 use std::hash::{BuildHasher, BuildHasherDefault, Hash, Hasher};
 
 mod common;
+// one cfg per harness file, so that a change in /repo that stops one group from compiling (e.g. a private
+// helper renamed by a refactoring) does not take the other groups down with it
+#[cfg(verif_g_sub)]
 mod sub;
+#[cfg(verif_g_ops)]
 mod ops;
+#[cfg(verif_g_iters)]
 mod iters;
+#[cfg(verif_g_ledger)]
 mod ledger;
+#[cfg(verif_g_frame)]
 mod frame;
+#[cfg(verif_g_hashes)]
 mod hashes;
+#[cfg(verif_g_callbacks)]
 mod callbacks;
+#[cfg(verif_g_ms)]
 mod ms;
